@@ -132,6 +132,7 @@ def run_case(case, rec, ssj=None):
     kind = rng.choice(SAFE_FILTERS)
     fspec = {'kind': kind, 'measure': measure, 'allow_empty': allow_empty,
              'threshold': rng.choice([1, 2]) if measure == 'OVERLAP' else random_t(rng)}
+    fspec['measure_spelling'] = gen.spell(rng, measure)
     want = allow_empty and measure != 'OVERLAP'
     info['api'] = '%s/%s/%s' % (entry, kind, measure)
     tag = '%s(%s,%r,allow_empty=%r) ' % (kind, measure, fspec['threshold'], allow_empty)
